@@ -16,6 +16,18 @@ Construction routes: the API (define_class / define_association / formalize / ne
 `loaded`, xtuml.ModelLoader: the population after a history prefix is written as SQL text (meta_common.Model.from_sql);
 D is checked on the loaded state and after every later op, K compares the loaded state with the model's state after
 the prefix and then step by step.
+Family `late` (construction ORDER): the API route with Association.formalize() called when instances EXIST already.  `how` =
+`api`: every association is defined up front, association i is formalised just before op number formal[i] of the history
+(0 = before any instance, prefix = after the whole prefix; the prefix holds arbitrary ops: creations, accepted and rejected
+relate / unrelate, deletes - none of them needs a formalised association); `batch-all` / `batch-each`: the instances of a
+canonical prefix are created WITH their key values (new(kind, Id=…, B_Id=…) on unformalised classes), the links are made by
+Association.batch_relate() and the associations are formalised afterwards (all batch_relate calls first, or association by
+association).  From the last prefix op on the full D is checked after every op (a referential attribute reads the
+identifying value of the linked instance, unset when unlinked - whatever the instance stored under that name before the
+attribute became referential), K compares with the model run on the same ops (formalisation is not a state component of the
+model: links, pools and reads do not depend on when an association was formalised).  Identifier VALUES differ between the
+routes (a not-yet-referential unique_id attribute draws a value from the generator), so for K the values read are named by
+the creation index of the instance that owns them (`_id_names`); D compares raw values.
 Domain of the THEOREMS: EVERY history (the former guard "relate is applied to live instances" is gone): relate itself
 rejects an instance that is not in its pool.  Histories that hand a DELETED instance to relate / unrelate
 (use-after-delete) are the family `uad`: the statement requires RelateException for such a relate (UnknownLink-
@@ -36,7 +48,10 @@ RULE = ('per association shape (1:1, 1:M, M:1 unconditional, reflexive with phra
         'unknown rel ids/phrases, delete of every instance and new; plus random histories (length 30-200 quick, up to '
         '1500 thorough) with pools growing to 3-6 per class; family `loaded`: random histories whose first k ops (the creations '
         'and the links that hold after them) are written as SQL text and built by xtuml.ModelLoader, the rest runs on the '
-        'loader-built model. Non-trivial: at least one accepted and one rejected '
+        'loader-built model; family `late`: the same histories on a model whose associations are formalised AFTER instances exist '
+        '(each association at its own point of a history prefix run through the API, or instances created with key values, '
+        'batch_relate(), then formalize()), exhaustively for every single op and sampled op pairs after a prelude created '
+        'before formalize(), and randomly. Non-trivial: at least one accepted and one rejected '
         'relate or unrelate, or a delete of a linked instance; distinct = distinct (shape, history)')
 EXHAUSTIVE = {'quick': True, 'thorough': True}
 ASSUMPTIONS = ['none on the histories: relate / unrelate / delete are applied to live AND to deleted instances (family uad: a '
@@ -142,6 +157,9 @@ def generate(ctx):
 
 
 def _generate(ctx):
+    # the (small) family `late` first: the exhaustive product below may use up the whole time budget of a tier on a busy machine
+    for c in _generate_late(ctx):
+        yield c
     depth = ctx.pick(2, 3)
     for name, schema in mc.SHAPES.items():
         pre = prelude(schema, 2)
@@ -203,6 +221,149 @@ def _generate(ctx):
         for batch in (1, 3, 20):
             for which in (0, 1, 2):
                 yield {'shape': 'churn', 'rounds': rounds, 'batch': batch, 'which': which, 'ops': [], 'fam': 'churn'}
+
+
+def _no_use_after_delete(ops):
+    """the history without the relate / unrelate ops that name an instance deleted earlier (they have their own family)"""
+    out, dead = [], set()
+    for o in ops:
+        if o[0] == 'delete':
+            dead.add(o[1])
+        elif o[0] in ('relate', 'unrelate') and (o[1] in dead or o[2] in dead):
+            continue
+        out.append(o)
+    return out
+
+
+def _generate_late(ctx):
+    """family `late` (construction order, docs/robustness-patterns.md no. 4): Association.formalize() is called when
+    instances exist already.  Exhaustive part: the prelude (2 instances per class) is created on the unformalised schema,
+    every association is formalised, then every single op of the alphabet and sampled op pairs.  Random part: each
+    association is formalised at its own point of a random prefix (how = api), or the instances of a canonical prefix are
+    created with their key values, linked by batch_relate() and formalised afterwards (how = batch-all / batch-each)."""
+    for name, schema in mc.SHAPES.items():
+        pre = prelude(schema, 2)
+        alpha = alphabet(schema, 2)
+        late = [len(pre)] * len(schema['assocs'])
+        rng = ctx.rng.fork('late-exh', name)
+        for first in alpha:
+            yield {'shape': name, 'ops': pre + [list(first)], 'fam': 'late', 'route': 'late', 'how': 'api',
+                   'prefix': len(pre), 'formal': late}
+            for last in rng.sample(alpha, min(len(alpha), ctx.pick(3, 30))):
+                ops = pre + [list(first), list(last)]
+                if in_domain(ops):
+                    yield {'shape': name, 'ops': ops, 'fam': 'late', 'route': 'late', 'how': 'api',
+                           'prefix': len(pre), 'formal': late}
+    lt = ctx.rng.fork('late')
+    for i in range(ctx.pick(320, 6000)):
+        r = lt.fork(i)
+        name = r.choice(sorted(mc.SHAPES))
+        schema = mc.SHAPES[name]
+        ops = _no_use_after_delete(_random_history(r, schema, ctx.pick(60, 300)))
+        how = r.choice(['api', 'api', 'batch-all', 'batch-each'])
+        if how == 'api':
+            k = r.randint(1, min(len(ops), 40))
+            # each association at its own point: before any instance, after the whole prefix, or somewhere in between
+            formal = [r.choice([0, k, k, r.randint(0, k), r.randint(0, k)]) for _ in schema['assocs']]
+            if not any(formal):
+                formal[r.randrange(len(formal))] = k
+            refkeys = [(a['src'], n) for a in schema['assocs'] for n in a['skeys']]
+            if len(set(refkeys)) < len(refkeys):
+                # an attribute formalised by TWO associations reads across the one formalised LAST first when both are
+                # linked (the statement does not say which; D accepts either): the model takes them in definition
+                # order, so for K they are formalised in that order
+                formal.sort()
+            yield {'shape': name, 'ops': ops, 'fam': 'late', 'route': 'late', 'how': how, 'prefix': k, 'formal': formal}
+        else:
+            k = r.randint(len(schema['classes']), max(len(schema['classes']), min(len(ops), 80)))
+            pre = mc.canonical_prefix(schema, ops[:k])
+            yield {'shape': name, 'ops': pre + _no_use_after_delete(ops[k:]), 'fam': 'late', 'route': 'late', 'how': how,
+                   'prefix': len(pre)}
+
+
+class _LateModel(mc.Model):
+    """the same real MetaModel as mc.Model, but an association is formalised only when told to: classes and associations
+    are defined up front, `formal[i]` is the op number before which association i is formalised"""
+
+    def __init__(self, schema, formal):
+        x = mc._xtuml
+        self.schema = schema
+        self.m = x.MetaModel(x.IntegerGenerator())
+        self.metaclasses = [self.m.define_class(c['name'], list(c['attrs'])) for c in schema['classes']]
+        self.assocs = [self.m.define_association(a['rel'], schema['classes'][a['src']]['name'], list(a['skeys']), a['smany'],
+                                                 a['scond'], a['sphrase'], schema['classes'][a['tgt']]['name'],
+                                                 list(a['tkeys']), a['tmany'], a['tcond'], a['tphrase'])
+                       for a in schema['assocs']]
+        self.formal = list(formal)
+        self.formalised = [False] * len(self.assocs)
+        self.preexisting = 0          # instances of the referring class that existed when an association was formalised
+        self.insts = []
+        self.index = {}
+        self.how = 'Association.formalize() of association i called before op number %s' % (list(formal),)
+
+    def formalize(self, ai):
+        if not self.formalised[ai]:
+            self.preexisting += len(self.metaclasses[self.schema['assocs'][ai]['src']].storage)
+            self.assocs[ai].formalize()
+            self.formalised[ai] = True
+
+    def formalize_due(self, step):
+        for ai, f in enumerate(self.formal):
+            if f <= step:
+                self.formalize(ai)
+
+    @classmethod
+    def batch(cls, schema, prefix_ops, each):
+        """the state after a canonical prefix (new + accepted relate ops, see mc.canonical_prefix) built the way a client
+        populates a model by hand: every instance is created WITH its attribute values (own identifier, key values of the
+        instances it refers to, None where it refers to nothing) on the unformalised classes, Association.batch_relate()
+        makes the links from the key values, Association.formalize() comes last (`each`: association by association - only
+        where no batch_relate then reads an attribute an earlier formalize() has made referential)."""
+        for o in prefix_ops:
+            if o[0] not in ('new', 'relate'):
+                raise ValueError('a batch prefix consists of new and relate ops: %r' % (o,))
+        kinds, pairs = mc._prefix_pairs(schema, prefix_ops)
+        if mc._expressible_pairs(schema, kinds, pairs) != pairs:
+            raise ValueError('the prefix holds links that key values cannot express (use canonical_prefix)')
+        own, drawn, val = mc._row_values(schema, kinds, pairs)
+        self = cls(schema, [len(prefix_ops)] * len(schema['assocs']))
+        for i, k in enumerate(kinds):
+            self.new(k, **dict((n, val(i, n)) for n, t in schema['classes'][k]['attrs']))
+        made, ok_each = set(), True
+        for a in schema['assocs']:
+            if made & (set((a['src'], n) for n in a['skeys']) | set((a['tgt'], n) for n in a['tkeys'])):
+                ok_each = False
+            made |= set((a['src'], n) for n in a['skeys'])
+        if each and ok_each:
+            for ai, ass in enumerate(self.assocs):
+                ass.batch_relate()
+                self.formalize(ai)
+            self.how = 'instances created with their key values, then per association batch_relate() and formalize()'
+        else:
+            for ass in self.assocs:
+                ass.batch_relate()
+            for ai in range(len(self.assocs)):
+                self.formalize(ai)
+            self.how = 'instances created with their key values, then batch_relate() of every association, then formalize()'
+        return self
+
+
+def _id_names(model, schema, kinds):
+    """{identifier value on the implementation: the value the same identifier has on the plain route}: the n-th instance
+    created in a class with an own identifier holds the n-th generator value there; on the late routes the generator is
+    also drawn from by unique_id attributes that are not referential YET (or the values are given), so the values read
+    are named by their owner before they are compared with the model (K only; D compares raw values)"""
+    table, n = {}, 0
+    for i, k in enumerate(kinds):
+        idn = schema['classes'][k]['id']
+        if idn:
+            n += 1
+            v = model.insts[i].__dict__.get(idn)
+            try:
+                table.setdefault(v, n)
+            except TypeError:
+                pass
+    return table
 
 
 # ------------------------------------------------------------------ independent relational oracle
@@ -515,8 +676,17 @@ def run_impl(case):
     if case.get('fam') == 'churn':
         return _run_churn(case)
     schema = mc.SHAPES[case['shape']]
-    k0 = case['prefix'] if case.get('route') == 'sql' else 0
-    model = mc.Model.from_sql(schema, case['ops'][:k0]) if k0 else mc.Model(schema)
+    route = case.get('route')
+    k0 = case['prefix'] if route in ('sql', 'late') else 0
+    late_api = route == 'late' and case['how'] == 'api'       # the prefix runs through the API, formalize() in between
+    if route == 'sql':
+        model = mc.Model.from_sql(schema, case['ops'][:k0])
+    elif late_api:
+        model = _LateModel(schema, case['formal'])
+    elif route == 'late':
+        model = _LateModel.batch(schema, case['ops'][:k0], case['how'] == 'batch-each')
+    else:
+        model = mc.Model(schema)
     orc = Oracle(schema)
     obs = []
     fails = []
@@ -531,9 +701,10 @@ def run_impl(case):
         if len(fails) < 3:
             fails.append({'sig': sig, 'what': '%s (shape %s, after %d ops: %s)%s' % (
                 what, case['shape'], step + 1, case['ops'][:step + 1][-6:],
-                '; the first %d ops were LOADED FROM TEXT: %s' % (k0, ' '.join(model.sql.split('\n'))) if k0 else '')})
+                '; the first %d ops were LOADED FROM TEXT: %s' % (k0, ' '.join(model.sql.split('\n'))) if route == 'sql' else
+                '; LATE FORMALISATION, prefix of %d ops: %s' % (k0, model.how) if route == 'late' else '')})
 
-    if k0:
+    if k0 and not late_api:
         # the loader-built state must be the state the prefix reaches through the API: the oracle replays the prefix, the
         # state predicates below are checked on the loaded state before the first op, and the state is the model's
         # observation after the last prefix op (K)
@@ -541,9 +712,21 @@ def run_impl(case):
             if orc.expected(op) != 'ok':
                 raise ValueError('prefix op %r is not an accepted one' % (op,))
     for step, op in enumerate(case['ops']):
-        if step < k0 - 1:
+        if late_api and step < k0:
+            # the prefix of the late route: associations are formalised when their point is reached; relate / unrelate /
+            # delete / new answer as the statement says whether or not an association is formalised; the state
+            # predicates are checked from the end of the prefix on, when every association is formalised
+            model.formalize_due(step)
+            want = orc.expected(op)
+            got = model.apply(op)
+            if str(got) != want:
+                fail('outcome', '%s gave %s, the statement requires %s' % (op, got, want), step)
+            if step < k0 - 1:
+                continue
+            model.formalize_due(k0)
+        elif step < k0 - 1:
             continue
-        if step == k0 - 1:
+        elif step == k0 - 1:
             got, want = Sym('ok'), 'ok'          # the loader-built state, observed where the API route is after the prefix
             stats['loaded_links'] = sum(len(ps) for ps in orc.pairs)
         else:
@@ -627,7 +810,9 @@ def run_impl(case):
             _navigate_check(model, schema, orc, fail, step)
         # no instance keeps a value of its own under a referential attribute (it would be read under other spellings of
         # the name and by where_eq, beside the linked identifying value)
-        for (i, key, v) in model.ref_copies():
+        # (on the late route an instance created before formalize() keeps what it stored then: the statement speaks of
+        # what the attribute READS, checked below)
+        for (i, key, v) in (model.ref_copies() if route != 'late' else ()):
             fail('referential-copy-in-dict', 'instance %d keeps %r = %r in its own dictionary although the attribute '
                  'is referential' % (i, key, v), step)
         # referential reads
@@ -653,8 +838,17 @@ def run_impl(case):
                 elif v not in cands:
                     fail('referential-read', '%s.%s of instance %d reads %r, linked identifying values are %s' % (
                         schema['classes'][k]['name'], attr, inst_i, v, sorted(map(repr, cands))), step)
+        if route == 'late':
+            names = _id_names(model, schema, orc.kinds)
+            refs = [[v if isinstance(v, Sym) else names.get(v, ['not-an-own-identifier', v]) for v in vals] for vals in refs]
         obs.append([got, pools, links, refs])
     nontrivial = (accepted > 0 and rejected > 0) or deleted_linked
+    if route == 'late':
+        stats['late_' + case['how']] = 1
+        stats['late_preexisting_instances'] = model.preexisting
+        nontrivial = nontrivial and model.preexisting > 0
+        return {'obs': obs, 'd_fail': fails, 'nontrivial': nontrivial,
+                'key': '%s/late/%s/%s/%s/%s' % (case['shape'], case['how'], k0, case.get('formal'), case['ops']), 'stats': stats}
     return {'obs': obs, 'd_fail': fails, 'nontrivial': nontrivial,
             'key': '%s/%s' % (case['shape'], case['ops']), 'stats': stats}
 
@@ -666,13 +860,24 @@ def model_line(case):
 
 
 def model_obs(case, ans):
-    if case.get('route') == 'sql':
-        return ans[case['prefix'] - 1:]      # the loaded state is the model's state after the last prefix op
+    if case.get('route') in ('sql', 'late'):
+        return ans[case['prefix'] - 1:]      # the loaded / late-formalised state is the model's state after the last prefix op
     return ans
 
 
 def shrink_candidates(case):
     ops = case['ops']
+    if case.get('route') == 'late':
+        # ops of the prefix as well (the formalisation points move with it)
+        for i in range(case['prefix'] - 1, -1, -1):
+            if ops[i][0] == 'new' or case['prefix'] < 2:
+                continue
+            c = dict(case)
+            c['ops'] = ops[:i] + ops[i + 1:]
+            c['prefix'] = case['prefix'] - 1
+            if 'formal' in case:
+                c['formal'] = [f - 1 if f > i else f for f in case['formal']]
+            yield c
     for i in range(len(ops) - 1, case.get('prefix', 0) - 1, -1):
         if ops[i][0] == 'new':
             continue          # instance numbering depends on the creation ops
